@@ -208,8 +208,8 @@ TABLE["C07"] = [
        "        with open(module_name + \".cpp\", \"w\", encoding=\"UTF-8\") as f:\n"
        "            f.write('// generated\\n')\n            f.write(self.wrap_file(content, module_name=module_name))")),
     B("bare-except-in-instantiation", {"V4"},
-      (TI + "namespace.py", "            original_element = top_level.find_class_or_function(\n                typedef_inst.typename)",
-       "            try:\n                original_element = top_level.find_class_or_function(\n                    typedef_inst.typename)\n"
+      (TI + "namespace.py", "            targets[id(element)] = top_level.find_class_or_function(\n                element.typename)",
+       "            try:\n                targets[id(element)] = top_level.find_class_or_function(\n                    element.typename)\n"
        "            except:\n                continue")),
     N("handle-opened-through-local",
       (PW, "        with open(main_module_name, \"w\", encoding=\"UTF-8\") as f:\n            f.write(cc_content)",
@@ -435,7 +435,7 @@ TABLE["C08"] = [
     B("typedef-looked-up-locally", {"N2"},
       (TI + "namespace.py", "            top_level = namespace.top_level()", "            top_level = namespace")),
     B("content-regrouped-by-kind", {"N3"},
-      (TI + "namespace.py", "    for element in namespace.content:", "    for element in sorted(namespace.content, key=lambda e: type(e).__name__):")),
+      (TI + "namespace.py", "    for element in namespace.content:", "    for element in sorted(namespace.content, key=lambda e: type(e).__name__):", 1)),
     B("plain-declarations-dropped", {"N3"},
       (TI + "namespace.py", "        else:\n            instantiated_content.append(element)\n\n    instantiated_content.extend(typedef_content)",
        "        else:\n            pass\n\n    instantiated_content.extend(typedef_content)")),
@@ -507,8 +507,8 @@ TABLE["C13"] += [
 ]
 TABLE["C08"] += [
     B("typedef-target-from-local-cache", {"N2"},
-      (TI + "namespace.py", "            original_element = top_level.find_class_or_function(\n                typedef_inst.typename)",
-       "            original_element = top_level.find_class_or_function(\n                typedef_inst.typename)\n"
+      (TI + "namespace.py", "            original_element = typedef_targets[id(typedef_inst)]\n",
+       "            original_element = typedef_targets[id(typedef_inst)]\n"
        "            if typedef_inst.typename.name in {e.name: e for e in namespace.content if hasattr(e, 'name')}:\n"
        "                original_element = {e.name: e for e in namespace.content if hasattr(e, 'name')}[typedef_inst.typename.name]")),
     B("handwritten-product-wrong-nesting", {"N1"},
@@ -522,7 +522,7 @@ TABLE["C08"] += [
       (HP, "                for instantiations in itertools.product(\n                        *method.template.instantiations):",
        "                for instantiations in combos(method.template):")),
     N("statement-before-dispatch-chain",
-      (TI + "namespace.py", "    for element in namespace.content:\n", "    for element in namespace.content:\n        if element is None:\n            continue\n")),
+      (TI + "namespace.py", "    for element in namespace.content:\n", "    for element in namespace.content:\n        if element is None:\n            continue\n", 1)),
 ]
 TABLE["C18"] += [
     B("check-scalar-accepts-empty", {"K6"},
@@ -1021,4 +1021,16 @@ TABLE["C11"] += [
       (MX, "            global_enums = [\n                member.name for member in class_.parent.content\n                if isinstance(member, parser.Enum)\n            ]\n            return arg_type.typename.name in global_enums",
        "            return arg_type.typename.name in self._namespace_enums(class_.parent)"),
       (MX, "    def is_global_enum(self,", "    def _namespace_enums(self, namespace):\n        if not hasattr(self, '_enum_cache'):\n            self._enum_cache = {}\n        if id(namespace) not in self._enum_cache:\n            self._enum_cache[id(namespace)] = [m.name for m in namespace.content if isinstance(m, parser.Enum)]\n        return self._enum_cache[id(namespace)]\n\n    def is_global_enum(self,")),
+]
+TABLE["C08"] += [
+    B("typedef-looked-up-while-namespaces-are-being-replaced", {"N2"},      # the defect repaired by 966c4e3
+      (TI + "namespace.py", "            original_element = typedef_targets[id(typedef_inst)]\n",
+       "            original_element = namespace.top_level().find_class_or_function(\n                typedef_inst.typename)\n")),
+    B("typedef-resolver-skips-nested-namespaces", {"N2"},
+      (TI + "namespace.py", "        elif isinstance(element, parser.Namespace):\n            find_typedef_targets(element, targets)\n", "")),
+    B("typedef-table-not-handed-to-nested-namespaces", {"N2"},
+      (TI + "namespace.py", "            element = instantiate_namespace(element, typedef_targets)\n", "            element = instantiate_namespace(element)\n")),
+    N("typedef-table-keyed-by-the-typedef-object",
+      (TI + "namespace.py", "            original_element = typedef_targets[id(typedef_inst)]\n", "            original_element = typedef_targets[typedef_inst]\n"),
+      (TI + "namespace.py", "            targets[id(element)] = top_level.find_class_or_function(", "            targets[element] = top_level.find_class_or_function(")),
 ]
